@@ -26,7 +26,7 @@ CLAUSES = {
     "C16.returns": 500,
 }
 HOOKS_REQUIRED = ["h5py_File_write_dict"]
-RULE = ("seeded class-based zoo over 34 classes (7 core labelled-matrix base classes, 2 genotype, 3 breeding-value, 4 coancestry, 9 variance-matrix incl. the "
+RULE = ("seeded class-based zoo over 42 classes (7 core labelled-matrix base classes, 8 progeny covariance matrices, 2 genotype, 3 breeding-value, 4 coancestry, 9 variance-matrix incl. the "
         "generic square taxa-trait base, 2 genetic-map, 3 genomic-model, 2 phenotyping classes); per object: optional label "
         "arrays present/absent, taxa/variants grouped/ungrouped, 1-3 traits, label alphabets ASCII / non-ASCII / with "
         "separators, sorted / unsorted label order, NaN data, standardised / arbitrary location-scale; table readers told "
@@ -261,6 +261,8 @@ def get_class(name):
         return _cls("pybrops.breed.prot.pt." + name, name)
     if name in CORE_CLASSES:
         return _cls("pybrops.core.mat." + name, name)
+    if name in PCV_CLASSES:
+        return _cls("pybrops.model.pcvmat." + name, name)
     raise KeyError(name)
 
 
@@ -506,6 +508,31 @@ CORE_CLASSES = ["DenseMatrix", "DenseTaxaMatrix", "DenseVariantMatrix", "DenseTa
                 "DenseTaxaTraitMatrix", "DenseSquareTaxaMatrix"]
 
 
+PCV_CLASSES = {   # progeny covariance matrices (square taxa axes x trait x trait): HDF5, copy and pickle routes
+    "DenseTwoWayDHAdditiveProgenyGeneticCovarianceMatrix": 2, "DenseTwoWayDHAdditiveProgenyGenicCovarianceMatrix": 2,
+    "DenseDihybridDHAdditiveProgenyGeneticCovarianceMatrix": 2, "DenseDihybridDHAdditiveProgenyGenicCovarianceMatrix": 2,
+    "DenseThreeWayDHAdditiveProgenyGeneticCovarianceMatrix": 3, "DenseThreeWayDHAdditiveProgenyGenicCovarianceMatrix": 3,
+    "DenseFourWayDHAdditiveProgenyGeneticCovarianceMatrix": 4, "DenseFourWayDHAdditiveProgenyGenicCovarianceMatrix": 4,
+}
+
+
+def build_pcv(g, cls_name, richness, lcls):
+    cls = get_class(cls_name)
+    nsq = PCV_CLASSES[cls_name]
+    n = int(g.integers(1, {2: 6, 3: 4, 4: 4}[nsq])); t = int(g.integers(1, 4))
+    kw, order = _taxa_part(g, n, richness, lcls)
+    trait, torder = _traits(g, t, richness, lcls)
+    mat = g.normal(size=(n,) * nsq + (t, t))
+    obj = cls(mat=mat, trait=trait, **kw)
+    grouped = False
+    if "taxa_grp" in kw and (richness == "rich" or g.random() < 0.5):
+        obj.group_taxa(); grouped = True
+    meta = dict(lcls=lcls if ("taxa" in kw or trait is not None) else "labels absent",
+                gcls="grouped" if grouped else ("ungrouped" if "taxa_grp" in kw else "no group labels"), dcls="any",
+                trivial=(n < 2 and t < 2))
+    return Spec(obj, cls_name, meta)
+
+
 def build_core(g, cls_name, richness, lcls):
     """Core labelled-matrix classes the persistable classes inherit their writers/readers/copy methods from."""
     cls = get_class(cls_name)
@@ -555,7 +582,7 @@ def build_core(g, cls_name, richness, lcls):
     return Spec(obj, cls_name, meta)
 
 
-ZOO = (CORE_CLASSES + ["DenseGenotypeMatrix", "DensePhasedGenotypeMatrix"] + list(BV_CLASSES) + list(CMAT_CLASSES) + list(VMAT_CLASSES)
+ZOO = (CORE_CLASSES + list(PCV_CLASSES) + ["DenseGenotypeMatrix", "DensePhasedGenotypeMatrix"] + list(BV_CLASSES) + list(CMAT_CLASSES) + list(VMAT_CLASSES)
        + ["StandardGeneticMap", "ExtendedGeneticMap"] + list(GMOD_CLASSES) + ["G_E_Phenotyping", "TruePhenotyping"])
 HDF5_CLASSES = [k for k in ZOO if k not in ("StandardGeneticMap", "ExtendedGeneticMap")]
 TABLE_CLASSES = list(BV_CLASSES) + list(CMAT_CLASSES) + list(VMAT_CLASSES) + ["StandardGeneticMap", "ExtendedGeneticMap"]
@@ -569,6 +596,8 @@ def build(g, cls_name, richness=None, lcls=None):
         s = build_gmat(g, cls_name, richness, lcls)
     elif cls_name in CORE_CLASSES:
         s = build_core(g, cls_name, richness, lcls)
+    elif cls_name in PCV_CLASSES:
+        s = build_pcv(g, cls_name, richness, lcls)
     elif cls_name in BV_CLASSES:
         s = build_bvmat(g, cls_name, richness, lcls)
     elif cls_name in CMAT_CLASSES:
